@@ -739,6 +739,56 @@ example : (exRTState2.w.stOf 1).active = false ∧ exRTState2.w.cells = [[], [2]
       · trivial)
     (by decide +kernel)⟩
 
+/-! ## the judge: the model's own trace satisfies `RT.specRT` -/
+
+/-- **`examples_hist` for `ReachTheTargetSim`**: under the class's precondition `RT.rtPre` (the world as the constructors
+leave it: `cfgOKb`, everybody alive with legal vitals, positive encodings, non-negative initial ammunition; the history starts
+with a reset; every reset in an order `RT.OpOK` covers — NOTHING about the steps: any action dicts, in the declared spaces or
+not, for live or dead or unknown agents) the trace of the model satisfies the judge `RT.specRT`, the Boolean the driver
+evaluates on the implementation's trace (op `gexample`, configuration `(reach …)`), for EVERY history and all tapes: the
+world after a successful `reset` satisfies `WInv` and after a successful `step` `WInvWeak`, both with the constructed static
+part; `reset` leaves a zero entry per learning agent, `step` keeps the key list of the reward dict; every observation that is
+returned — also of a dead or hand-deactivated agent — has exactly the declared keys, each value in the declared space; the
+getters change neither world nor reward dict, `get_reward` is read-and-reset, the done getters return the class's own rules
+(`RT.doneW`, `RT.onlyLeft`) on the current world; a `step` inside `RT.stepMustNotRaise` (a `WInvWeak` world, items in the
+declared action spaces of learning agents, a full reward dict) does not raise; the trace ends with the first call that
+raises. -/
+theorem reach_hist (cfg : RT.Cfg) (w0 : World) (t0 : Tape) (ops : List Ex.EOp)
+    (hpre : RT.rtPre cfg w0 ops = true) :
+    RT.specRT cfg w0 (Ex.zipOps ops (RT.runOps cfg { w := w0, tape := t0 } ops).1) = true := by
+  obtain ⟨hW, hops⟩ := RT.rtPre_hyps hpre
+  exact RT.specFrom_model hW ops { w := w0, tape := t0 } hops (RT.goodH_init cfg w0 t0)
+
+/-- a history with everything in it: reset; the step in which runner 1 reaches the target and is taken off the grid; its
+reward, its done flag; an observation of the deactivated runner; a second step from the `WInvWeak`-only world with an item for
+the deactivated runner; a step with an action OUTSIDE the declared space for an agent that does not exist (raises: the trace
+ends) -/
+def exRTHistOps : List Ex.EOp :=
+  exRTOps ++ [.rew 1, .done 1, .allDone, .obs 1 [], .step exRTActs [], .rew 2, .obs 0 [],
+    .step [(7, { move := (5, 5), attack := .grid [] })] [], .rew 0]
+
+/-- the precondition is inhabited, the trace is the expected one … -/
+example : RT.rtPre exRTCfg exRTWorld2 exRTHistOps = true ∧
+    ((RT.runOps exRTCfg { w := exRTWorld2 } exRTHistOps).1.map fun e => (e.res.isErr, e.w.WInv, e.w.WInvWeak)) =
+      [(false, true, true), (false, false, true), (false, false, true), (false, false, true), (false, false, true),
+       (false, false, true), (false, false, true), (false, false, true), (false, false, true), (true, false, true)] := by
+  decide +kernel
+
+/-- … and it passes the judge, by the theorem -/
+example : RT.specRT exRTCfg exRTWorld2
+    (Ex.zipOps exRTHistOps (RT.runOps exRTCfg { w := exRTWorld2 } exRTHistOps).1) = true :=
+  reach_hist _ _ _ _ (by decide +kernel)
+
+/-- the judge is not trivially true: it rejects the trace in which the reward for reaching the target is delivered as 100
+instead of 99, and the trace in which the second step (made inside `stepMustNotRaise`, from the `WInvWeak`-only world) is
+reported to have raised -/
+example :
+    let tr := (RT.runOps exRTCfg { w := exRTWorld2 } exRTHistOps).1
+    RT.specRT exRTCfg exRTWorld2 (Ex.zipOps exRTHistOps (tr.modify 2 fun e => { e with res := .int 100 })) = false ∧
+    RT.specRT exRTCfg exRTWorld2
+      (Ex.zipOps exRTHistOps ((tr.take 7).modify 6 fun _ => { (tr.getD 5 ⟨.unit, exRTWorld2, none⟩) with res := .err .keyError })) = false := by
+  decide +kernel
+
 /-- the manager theorems are inhabited: a turn-based run over `exRTWorld2` -/
 example : specC01 .turnBased 3 exRTCfg.isLearning false
     (runOps (RT.toSimIface exRTCfg 3) .turnBased (mgrInit ({ w := exRTWorld2 } : Ex.St) false [])
